@@ -832,6 +832,7 @@ func main() {
 		"Exprs.lean":  genExprs(),
 		"Tables.lean": genTables(),
 		"Src.lean":    genSrc(false),
+		"Access.lean": genAccess(),
 	}
 	for n, c := range files {
 		if err := os.WriteFile(filepath.Join(*out, n), []byte(c), 0o644); err != nil {
